@@ -502,10 +502,15 @@ impl FunctionCompiler<'_> {
             // there was an unfinished comptime
             let body = self.world_bodies.global_body(loc.to_naive());
 
-            // todo: could this cause issues?
+            // the body of the other global is compiled in place. its locals are numbered
+            // independently of the locals of the current body, so they must not share a table
             let old_loc = std::mem::replace(&mut self.loc, loc.wrap());
+            let old_locals = std::mem::take(&mut self.locals);
+            let old_switch_locals = std::mem::take(&mut self.switch_locals);
             let res = self.compile_expr_with_args(body, no_load);
             self.loc = old_loc;
+            self.locals = old_locals;
+            self.switch_locals = old_switch_locals;
 
             return res;
         };
